@@ -186,7 +186,7 @@ def _break_to_err(body, branch_term):
     return True
 
 
-def check_callers(facts, chk):
+def check_callers(facts, chk, rule='C19.callers'):
     """who-consumes rule: at every call site of MergeSkaArray::load / io_utils::load_array in the crate the Err outcome
     must stop the operation: returned from a (non-closure) function whose callers are checked in turn, unwrapped
     fatally, propagated with `?`, or tested with `if let Ok` in main (whose both-fail edge diverges, C09.arms)."""
@@ -198,10 +198,10 @@ def check_callers(facts, chk):
             n = t.callee.name or ''
             if n in (MSA + '::load', 'io_utils::load_array'):
                 sites.append((b, bb, t))
-    chk.floor('C19.callers', 'load / load_array call sites', len(sites), 18)
+    chk.floor(rule, 'load / load_array call sites', len(sites), 18)
     for b, bb, t in sites:
         where = b.name if b.kind != 'Closure' else b.path
-        key = 'C19.callers:%s:%s' % (where.split('::')[-1] if b.kind != 'Closure' else where, (t.callee.full or '').split('::')[-1] + '@' + ('u128' if 'u128' in (t.callee.full or '') else 'u64' if 'u64' in (t.callee.full or '') else 'IntT'))
+        key = rule + ':%s:%s' % (where.split('::')[-1] if b.kind != 'Closure' else where, (t.callee.full or '').split('::')[-1] + '@' + ('u128' if 'u128' in (t.callee.full or '') else 'u64' if 'u64' in (t.callee.full or '') else 'IntT'))
         verdict = None
         if t.dest.local == 0 and not t.dest.proj:
             if b.kind == 'Closure':
@@ -230,11 +230,11 @@ def check_callers(facts, chk):
                 else:
                     verdict = 'the Result of %s is used by %s' % (t.callee.name, u[0])
         if verdict:
-            chk.violation('C19.callers', 'C19.callers:%s' % where, where=t.span,
+            chk.violation(rule, rule + ':%s' % where, where=t.span,
                           detail=verdict + ': a damaged .skf would be skipped instead of rejected')
-    bad = [i for i in chk.instances if i['rule'] == 'C19.callers' and i['status'] == 'VIOLATION']
+    bad = [i for i in chk.instances if i['rule'] == rule and i['status'] == 'VIOLATION']
     if not bad:
-        chk.ok('C19.callers', 'C19.callers:all', '', 'all %d load / load_array call sites stop the operation on Err' % len(sites), evals=len(sites))
+        chk.ok(rule, rule + ':all', '', 'all %d load / load_array call sites stop the operation on Err' % len(sites), evals=len(sites))
 
 
 def check_inplace(facts, chk):
